@@ -1,7 +1,7 @@
 (* Non-vacuity and refuted witnesses for C03 (values in Z; true division replaced by Z division, which
    like Python raises on a zero divisor). *)
 From Coq Require Import List String Bool ZArith.
-From PAFC01 Require Import ModelTree Proofs6.
+From PAFC01 Require Import ModelTree Proofs8.
 From PAFC03 Require Import Model Proofs Proofs2 Proofs3 Proofs4.
 Import ListNotations.
 Local Open Scope string_scope.
